@@ -1,6 +1,7 @@
 mod alloc;
 mod bitops;
 mod branchupd;
+mod bttree;
 mod core_mp;
 mod core_pp;
 mod crash;
@@ -68,6 +69,7 @@ fn main() {
         "alloc-lookup" => alloc::run_lookup(seed, cases, &mut sink),
         "wal" => wal::run(seed, cases, &mut sink),
         "prepsync" => prepsync::run(seed, cases, &mut sink),
+        "bttree" => bttree::run(seed, cases, &mut sink),
         "overlay-index" => ovl::run(seed, cases, &mut sink),
         "bitops" => bitops::run(seed, cases, &mut sink),
         "bitops-node" => bitops::run_nodes(seed, cases, &mut sink),
